@@ -125,3 +125,49 @@ Theorem C05_solver_model_learn_keeps_levels : forall U P A a_conflict (st : ssta
   learn U a_conflict st conf = Some (st', lv) ->
   LInv A st' /\ Rooted (ps_trail (s_ps st')) /\ top_lv st' = lv.
 Proof. exact linv_learn. Qed.
+
+(* ---- the two-watched-literal scheme loses no clause (Cdcl/PropagateComplete.v) ---- *)
+From Resolvo Require Import Cdcl.PropagateCompleteHyp.
+
+(* from a state with the watch invariant, every watching clause in the list of the literal it watches
+   (WComp) and no watched clause -- outside the exempt ones XS -- with both watched literals false by
+   PROPAGATED entries (Inv2), a call of propagate that ends without conflict ends with every entry
+   propagated, the same invariants, and every asserted literal true *)
+Theorem C05_propagate_complete : forall db XS level asserts units st st',
+  WInv db (ps_watch st) (ps_lists st) -> WComp (ps_watch st) (ps_lists st) -> tnodup st -> Inv2 XS st -> PIdx st ->
+  propagate db level asserts units st = Some (st', None) ->
+  Inv2 XS st' /\ WComp (ps_watch st') (ps_lists st') /\ (length (ps_trail st') <= ps_pidx st')%nat /\ tnodup st' /\
+  WInv db (ps_watch st') (ps_lists st') /\
+  (forall x, In x (asserts ++ units) -> plit_true st' (fst x) = true).
+Proof. exact propagate_complete. Qed.
+
+(* with every entry propagated the invariant speaks about the whole trail: no watched clause outside XS
+   has both watched literals false, in particular none is falsified *)
+Theorem C05_complete_no_watched_falsified : forall db XS st,
+  Inv2 XS st -> (length (ps_trail st) <= ps_pidx st)%nat -> WInv db (ps_watch st) (ps_lists st) ->
+  forall id w, wget (ps_watch st) id = Some w -> ~ XS id ->
+    ~ (plit_false st (fst w) = true /\ plit_false st (snd w) = true) /\
+    exists c, nth_error db (N.to_nat id) = Some c /\ falsified (ps_trail st) (cl_lits c) = false.
+Proof. exact complete_no_watched_falsified. Qed.
+
+(* in the form the check uses (hypotheses evaluated at every call of propagate in every hook log; the
+   exempt clauses are those that start being watched with both watched literals false) *)
+Theorem C05_checked_propagate_complete : forall db xs level asserts units st st',
+  prop_hyps db asserts units st = true -> comp_hyps xs st = true ->
+  propagate db level asserts units st = Some (st', None) ->
+  (length (ps_trail st') <= ps_pidx st')%nat /\
+  (forall id w, wget (ps_watch st') id = Some w -> ~ In id xs ->
+     exists c, nth_error db (N.to_nat id) = Some c /\ falsified (ps_trail st') (cl_lits c) = false) /\
+  (forall x, In x (asserts ++ units) -> plit_true st' (fst x) = true) /\
+  Inv2 (fun id => In id xs) st' /\ WComp (ps_watch st') (ps_lists st').
+Proof. exact checked_propagate_complete. Qed.
+
+(* what else touches the state keeps the invariant: an assignment outside propagate, undo, a new clause
+   whose watched literals are not both false (or that is exempt) *)
+Theorem C05_inv2_kept_outside_propagate : forall XS st,
+  Inv2 XS st ->
+  (forall e, PIdx st -> Inv2 XS (push_entry st e) /\ PIdx (push_entry st e)) /\
+  (Inv2 XS (undo_last st) /\ PIdx (undo_last st)) /\
+  (Inv2 XS (clear_trail st) /\ PIdx (clear_trail st)) /\
+  (forall id w, XS id \/ ~ (pfalse st (fst w) /\ pfalse st (snd w)) -> Inv2 XS (start_watching st id w)).
+Proof. exact inv2_kept_outside. Qed.
